@@ -52,9 +52,9 @@ pub struct Sizes {
 
 pub fn sizes(ctx: &Ctx, scale: usize) -> Sizes {
     if ctx.thorough {
-        Sizes { enum_size: 6, enum_free: 2, n_random: 4000 * scale, rand_size: 40 }
+        Sizes { enum_size: 9, enum_free: 2, n_random: 40000 * scale, rand_size: 50 }
     } else {
-        Sizes { enum_size: 5, enum_free: 1, n_random: 300 * scale, rand_size: 30 }
+        Sizes { enum_size: 8, enum_free: 2, n_random: 4000 * scale, rand_size: 40 }
     }
 }
 
